@@ -27,7 +27,7 @@ CHILD_TIERS = {'C01': ('quick', 'thorough'), 'C02': ('quick', 'thorough'), 'C03'
                'C04': ('quick', 'thorough'), 'C05': ('quick', 'thorough'), 'C07': ('quick', 'thorough'),
                'C08': ('quick', 'thorough'), 'C11': ('quick', 'thorough'), 'C12': ('quick', 'thorough'),
                'C17': ('quick', 'thorough'), 'C19': ('quick', 'thorough'),
-               'C09': ('thorough',), 'C10': ('thorough',), 'C15': ('thorough',)}
+               'C10': ('quick', 'thorough'), 'C09': ('thorough',), 'C15': ('thorough',)}
 
 
 def _child_env(overrides, seed=None):
@@ -42,7 +42,8 @@ def _child_env(overrides, seed=None):
 def start_children(pid, tier, seed, tmp):
     if tier not in CHILD_TIERS.get(pid, ()) or os.environ.get('PMC_CONFIG_OVERRIDES') or os.environ.get('PMC_NO_CHILDREN'):
         return []
-    picks = [DENSITY_CONFIGS[seed % len(DENSITY_CONFIGS)]] if tier == 'quick' else DENSITY_CONFIGS
+    # quick: the configuration without volumes (the one that changes which branches run); thorough: both
+    picks = DENSITY_CONFIGS[:1] if tier == 'quick' else DENSITY_CONFIGS
     out = []
     for i, cfg in enumerate(picks):
         path = os.path.join(tmp, f'child{i}.json')
